@@ -196,6 +196,15 @@ func c14R2(c *Ctx, id string) {
 			}
 		}
 		c.check(id+":(*Tx).WriteTo:meta1", wt, wt.Pos(), "meta page 1: SetId(1) and exactly one DecTxid() after the first write, then SetChecksum(Sum64()), then the write — so page 0 carries the higher txid", ok2, fmt.Sprintf("order write1=%d SetId(1)=%d DecTxid=%d checksum=%d write2=%d", w1, id1, dec, ck2, w2))
+		// both pages are typed as meta pages: SetFlags(MetaPageFlag) before the first write, never changed before the second
+		fl := idx("common.(*Page).SetFlags", 1, 4, true)
+		okFl := fl >= 0 && fl < w1
+		for i, t := range tr {
+			if t.name == "common.(*Page).SetFlags" && i != fl && i < w2 {
+				okFl = false
+			}
+		}
+		c.check(id+":(*Tx).WriteTo:meta-flag", wt, wt.Pos(), "the page buffer is typed SetFlags(MetaPageFlag) before meta page 0 is written and keeps that type for meta page 1", okFl, fmt.Sprintf("SetFlags(4) at trace index %d, first write at %d", fl, w1))
 		// checksum argument is Sum64 of the page's meta
 		okSum := true
 		for _, t := range tr {
